@@ -1091,6 +1091,7 @@ def run(ctx):
     lazy_stream(ctx)
     xscope(ctx)
     scope_tie(ctx)
+    nested_stream(ctx)
     ctx.extra['lean_parse_mismatch'] = ctx.extra.get('lean_parse_mismatch', [])[:5]
 
 
@@ -1505,3 +1506,127 @@ def scope_tie(ctx):
                            model=dict(zip(SC_NAMES, got)) if isinstance(got, list) else got, impl=dict(zip(SC_NAMES, real)))
         else:
             ctx.count('scope:equal')
+
+
+# ---------------------------------------------------------------------------------------------------------------
+# oracle (3d): queries built over queries over queries through ONE code object, a different outer-scope value at every level
+
+NESTED_SRC = '''
+def without(base, n):
+    return select(p for p in base if p.x != n)
+def above(base, n):
+    return select(p for p in base if p.x > n - 100)
+def without_s(base, n):
+    return select("p for p in base if p.x != n")
+def refine(q, m):
+    return q.filter(lambda p: p.x != m)
+def refine_w(q, m):
+    return q.where(lambda p: p.x != m)
+def refine_s(q, m):
+    return q.filter("lambda p: p.x != m")
+def rec(base, ns):
+    if not ns: return base
+    return rec(select(p for p in base if p.x != ns[0]), ns[1:])
+HELPERS = {'without': without, 'above': above, 'without_s': without_s, 'refine': refine, 'refine_w': refine_w, 'refine_s': refine_s}
+def build(steps):
+    q = N
+    for kind, val in steps:
+        if kind == 'rec': q = rec(q, val)
+        else:
+            if kind.startswith('refine') and q is N: q = select(p for p in N)     # .where() names the query's own variable
+            q = HELPERS[kind](q, val)
+    return q
+'''
+
+_nested = {}
+
+
+def nested_setup():
+    if _nested: return _nested
+    from pony.orm import Database, Required, select, db_session
+    db = Database()
+    class N(db.Entity):
+        x = Required(int)
+    db.bind('sqlite', ':memory:')
+    db.generate_mapping(create_tables=True)
+    with db_session:
+        for i in range(12): N(x=i)
+    G = {'N': N, 'select': select}
+    exec(compile(NESTED_SRC, '<c04-nested>', 'exec'), G)
+    _nested.update({'G': G, 'db_session': db_session, 'N': N})
+    return _nested
+
+
+def nested_expected(steps):
+    rows = list(range(12)); params = []
+    for kind, val in steps:
+        if kind == 'rec':
+            for n in val:
+                rows = [r for r in rows if r != n]; params.append(n)
+        elif kind == 'above':
+            rows = [r for r in rows if r > val - 100]; params.append(val - 100)
+        else:
+            rows = [r for r in rows if r != val]; params.append(val)
+    return rows, sorted(params)
+
+
+def nested_run(steps):
+    """-> None when the real code agrees with Python, else a description of the disagreement (exceptions included)"""
+    env = nested_setup()
+    rows, params = nested_expected(steps)
+    try:
+        with env['db_session']:
+            q = env['G']['build'](steps)
+            got = sorted(p.x for p in q)
+            bound = sorted(v for k, v in q._vars.items() if isinstance(v, int) and not isinstance(v, bool))
+    except Exception as e:
+        return {'what': 'exception', 'observed': '%s: %s' % (type(e).__name__, str(e)[:160]), 'expected': {'rows': rows, 'parameters': params}}
+    if got != rows:
+        return {'what': 'rows', 'observed': {'rows': got, 'parameters': bound}, 'expected': {'rows': rows, 'parameters': params}}
+    if bound != params:
+        return {'what': 'parameters', 'observed': {'rows': got, 'parameters': bound}, 'expected': {'rows': rows, 'parameters': params}}
+    return None
+
+
+def nested_stream(ctx):
+    rng = random.Random(ctx.seed * 6151 + 77)
+    cases = [[('without', 3)], [('without', 3), ('without', 7)], [('without', 3), ('without', 7), ('without', 5)],
+             [('without', 2), ('without', 8), ('without', 4), ('without', 6)], [('rec', [3, 7, 5, 9])], [('rec', [1, 2, 3, 4, 5, 6])],
+             [('without_s', 3), ('without_s', 7), ('without_s', 5), ('without_s', 1)],
+             [('without', 3), ('refine', 4), ('without', 7), ('refine', 8), ('without', 5)],
+             [('refine', 4), ('refine', 5), ('refine_w', 6), ('refine', 7)], [('without', 1), ('refine_w', 2), ('refine_w', 3), ('without', 4), ('without', 5)],
+             [('above', 103), ('above', 105), ('above', 107), ('above', 102)], [('refine_s', 2), ('refine_s', 3), ('refine_s', 4)],
+             [('without', 3), ('above', 101), ('without', 7), ('above', 104), ('without_s', 9), ('refine_s', 10)]]
+    kinds = ['without', 'without', 'above', 'without_s', 'refine', 'refine_w', 'refine_s', 'rec']
+    for _ in range(ctx.scale(60, 1500)):
+        steps = []
+        for _ in range(rng.choice([3, 3, 4, 4, 5, 6])):
+            k = rng.choice(kinds)
+            if k == 'rec': steps.append((k, rng.sample(range(12), rng.choice([2, 3, 4]))))
+            elif k == 'above': steps.append((k, 100 + rng.randrange(12)))
+            else: steps.append((k, rng.randrange(12)))
+        cases.append(steps)
+    seen = set()
+    for steps in cases:
+        depth = sum(len(v) if k == 'rec' else 1 for k, v in steps)
+        ctx.case(['nested', steps], kind='nested:depth-%d' % min(depth, 6))
+        f = nested_run(steps)
+        if f is None:
+            ctx.count('nested:equal'); continue
+        # shrink: drop steps / shorten recursion lists while the disagreement stays
+        cur = [(k, list(v) if isinstance(v, list) else v) for k, v in steps]
+        changed = True
+        while changed:
+            changed = False
+            for i in range(len(cur)):
+                trial = cur[:i] + cur[i + 1:]
+                if cur[i][0] == 'rec' and len(cur[i][1]) > 1: trial = cur[:i] + [('rec', cur[i][1][:-1])] + cur[i + 1:]
+                if trial and nested_run(trial) is not None:
+                    cur = trial; changed = True; break
+        f = nested_run(cur) or f
+        key = 'nested:%s:%s' % (f['what'], '>'.join('%s*%d' % (k, len(v)) if k == 'rec' else k for k, v in cur))
+        if key in seen: continue
+        seen.add(key)
+        ctx.violation('a query built over queries through one code object does not pass every level\'s outer-scope value to the database'
+                      if f['what'] != 'exception' else 'building / running a valid nested query raises',
+                      {'steps': cur, 'helpers': NESTED_SRC.strip(), 'found_in': steps}, observed=f['observed'], expected=f['expected'], key=key)
